@@ -9,6 +9,7 @@ package conn
 // build tag `verif`.
 
 import (
+	"encoding/binary"
 	"io"
 	"time"
 
@@ -65,4 +66,14 @@ func (sc *SecretConnection) VerifFork(conn io.ReadWriteCloser) *SecretConnection
 		recvNonce: new([aeadNonceSize]byte),
 		sendNonce: new([aeadNonceSize]byte),
 	}
+}
+
+// VerifForkAt is VerifFork with the two frame counters set: the state of a session that has already
+// carried `sent` frames in this direction and `received` in the other (the counters are the little-endian
+// 64-bit integers in nonce[4:], exactly as incrNonce reads them).
+func (sc *SecretConnection) VerifForkAt(conn io.ReadWriteCloser, sent, received uint64) *SecretConnection {
+	f := sc.VerifFork(conn)
+	binary.LittleEndian.PutUint64(f.sendNonce[4:], sent)
+	binary.LittleEndian.PutUint64(f.recvNonce[4:], received)
+	return f
 }
